@@ -27,6 +27,9 @@ def _outcome(pid, tier, seed):
         "tlc_counterexamples": tot["tlc_counterexamples"],
         "configurations": tot["configs"],
         "samples": tot["samples"],
+        "scripted_family_calls": tot.get("alias_family_calls", 0),
+        "unbounded_history_models": tot.get("unbounded_history_models", []),
+        "unbounded_history_states": tot.get("unbounded_history_states", 0),
     }
     out.assumptions = LEVEL_ASSUMPTIONS
     return out
@@ -45,6 +48,11 @@ def run(tier, seed):
 
 def replay(rep):
     out = Outcome("C09")
+    if rep.get("engine") == "statecache-family":
+        for owner, sig, what, rp in E.alias_family()[0]:
+            if owner == "C09" and all(rp.get(k) == rep.get(k) for k in ("family", "kind")):
+                out.violate(sig, what, rp)
+        return out
     if rep.get("engine") == "statecache":
         for owner, sig, what, rp in E.replay_case(rep):
             if owner == "C09":
